@@ -18,7 +18,7 @@ from harness import tlc, tlvkit as kit, strict_tlv as stl, tlaval
 INVS = ['AcceptIffWellFormed', 'ExtractEqual', 'RejectHasReason', 'AgreesWithRunScan', 'PosBound']
 PROPS = ['OneElementPerStep', 'FposMonotone']
 WITNESSES = ['W_AcceptFull', 'W_MissingName', 'W_LpFrag', 'W_NestedOverrun', 'W_IgnoredByFlagIn', 'W_OooNonCritical']
-ACTIONS = ['FieldFound', 'SkippedFound', 'IgnoredNonCritical', 'IgnoredCriticalByFlag', 'RejectCritical', 'Overrun',
+ACTIONS = ['FieldFound', 'SkippedFound', 'IgnoredNonCritical', 'IgnoredCriticalByFlag', 'RejectCritical', 'Overrun', 'CutNumber',
            'BadUintWidth', 'BadName', 'BadNested', 'Done']
 SUBST = 'CONSTANTS SchemaOfCase <- C07Schema IcOfCase <- C07Ic InputOfCase <- C07Input'
 FN = {'interest': 'parse_interest', 'data': 'parse_data', 'cert': 'parse_certificate', 'lp': 'parse_lp_packet_v2',
@@ -231,6 +231,14 @@ def structural_edits(rng, pk, wire, schema, outer_t, n):
             cand.append(lvl[:i] + [(127, b'\x01')] + lvl[i:])
             cand.append(lvl[:i] + [(126, b'\x02')] + lvl[i:])
         out += [stl.write_tlv([(t0, rebuild(tree, path, new))]) for new in cand]
+        # truncated multi-byte Type / Length numbers at the end of the level (enclosing lengths repaired):
+        # partial numbers appended, and the level's own last bytes cut off
+        for raw in (b'\xfd', b'\xfd\x00', b'\xfe\x00\x00', b'\xff' + b'\x00' * 7, b'\x50\xfd', b'\x50\xfd\x00',
+                    b'\x15\xfe\x00\x00\x00', b'\xfd\x03\x20\xfd\x00', b'\xfd\x03\x21\xfd'):
+            out.append(stl.write_tlv([(t0, rebuild(tree, path, lvl + [raw]))]))
+        whole = stl.write_tlv(lvl)
+        for k in range(1, min(len(whole), 8)):
+            out.append(stl.write_tlv([(t0, rebuild(tree, path, [whole[:-k]]))]))
     for _ in range(n):
         path, lvl = rng.choice(lv)
         op = rng.choice(['del', 'dup', 'swap', 'insnc', 'insuc', 'len+', 'len-', 'rawlen'])
